@@ -87,6 +87,11 @@ func scenarios(indexed bool) []*eng.Scenario {
 				{{K: "delete", Q: qOn("a", m.Leaf("gte", "x", int64(3)))}, {K: "update", Q: qOn("a", m.Leaf("lte", "x", int64(4))), Set: setMap("z", int64(1))}},
 				{{K: "count", Q: all}, {K: "count", Q: qOn("a", m.Exists("z"))}},
 			}},
+		{Name: "S13-oversize-batch-vs-count" + suffix, Setup: with(ins("a", doc(u1, "x", int64(1)))),
+			Threads: [][]m.Op{
+				{ins("a", paddedDocs(2600, 700)...)}, // beyond badger's per-transaction limit in this configuration: refused as a whole there
+				{{K: "count", Q: all}, {K: "count", Q: qOn("a", m.Leaf("gte", "x", int64(0)))}},
+			}},
 		{Name: "S8-drop-index-vs-indexed-update" + suffix, Setup: with(ins("a", doc(u1, "x", int64(1)), doc(u2, "x", int64(2)))),
 			Threads: [][]m.Op{
 				{{K: "dropIndex", Coll: "a", Field: "x"}},
@@ -143,6 +148,14 @@ func tail(s string, n int) string {
 	return s
 }
 
+func paddedDocs(n, pad int) []m.Doc {
+	out := manyDocs(n)
+	for _, d := range out {
+		d["pad"] = strings.Repeat("p", pad)
+	}
+	return out
+}
+
 func manyDocs(n int) []m.Doc {
 	out := make([]m.Doc, n)
 	for i := range out {
@@ -155,7 +168,7 @@ func init() {
 	register("C07", "model_checking", func(run *ev.Run, tier string) string {
 		tags := own("nonlinearizable", "deadlock", "rawkeys", "count", "indexquery", "id", "panic", "leak", "final", "harness")
 		runRaceBinary(run, tier) // first: cheap, and a data race explains most of what the exploration would then stumble over
-		nScen := 12
+		nScen := 13
 		for _, indexed := range []bool{false, true} {
 			for i, sc := range scenarios(indexed) {
 				if i >= nScen {
@@ -166,7 +179,7 @@ func init() {
 					if tier == "thorough" {
 						eng.SchedExplore(&eng.SchedConfig{Scenario: sc, Backend: b, Mode: eng.ModeTxPoints, Bound: 4, Budget: 5 * time.Minute, Own: tags}, run)
 						eng.SchedExplore(&eng.SchedConfig{Scenario: sc, Backend: b, Mode: eng.ModeEveryCall, Bound: 3, Budget: 5 * time.Minute, Own: tags}, run)
-					} else if !strings.HasPrefix(sc.Name, "S11") && !strings.HasPrefix(sc.Name, "S12") { // thousands of store calls per schedule: op+commit mode only in the quick tier
+					} else if !strings.HasPrefix(sc.Name, "S11") && !strings.HasPrefix(sc.Name, "S12") && !strings.HasPrefix(sc.Name, "S13") { // thousands of store calls per schedule: op+commit mode only in the quick tier
 						eng.SchedExplore(&eng.SchedConfig{Scenario: sc, Backend: b, Mode: eng.ModeEveryCall, Bound: 1, Budget: 60 * time.Second, Own: tags}, run)
 					}
 				}
